@@ -21,7 +21,7 @@ WSA = '{http://www.w3.org/2005/08/addressing}'
 ID_WINDOW = 200  # size of the bounded memory of known message ids (NetworkingThread._known_message_ids)
 # the id-window overflow (>= 200 foreign ids between the registration of an own message and its loop-back) is a defect of the unchanged
 # tree (see /verif/scratch/c15_repro_1.py); it fires as a witness only if this is True or env VERIF_C15_IDWINDOW=1 (the lead decides)
-IDWINDOW_DEFAULT = False
+IDWINDOW_DEFAULT = True
 
 _LOG = logging.getLogger('vf.c15sim')
 _LOG.addHandler(logging.NullHandler())
@@ -39,6 +39,7 @@ class SimClock:
         self.sleeps = 0
         self.limit = limit
         self.on_sleep = None
+        self.phase = None  # callable -> fraction of a sleep after which the harness acts (0 = right after the loop fell asleep)
 
     def time(self):
         return self.now
@@ -47,11 +48,16 @@ class SimClock:
 
     def sleep(self, seconds):
         self.sleeps += 1
-        self.now += max(seconds, 0)
+        seconds = max(seconds, 0)
         if self.sleeps > self.limit:
             raise SimAbort
-        if self.on_sleep is not None:
-            self.on_sleep()
+        if self.on_sleep is None:
+            self.now += seconds
+            return
+        wake = self.now + seconds
+        self.now += seconds * (self.phase() if self.phase is not None else 1.0)
+        self.on_sleep()
+        self.now = max(self.now, wake)
 
 
 class SimRandom:
@@ -241,25 +247,26 @@ def mid_of(data):
 
 
 class Foreign:
-    """messages of OTHER nodes, created by the library's own WSDiscovery senders (the networking thread of that instance only records)."""
+    """messages of OTHER nodes, created by the library's own WSDiscovery senders on a second complete node (same fakes, same clock); the
+    messages are taken from its send queue instead of being transmitted."""
 
-    def __init__(self):
+    def __init__(self, clock, rnd):
         from sdc11073.namespaces import default_ns_helper as nsh
-        from sdc11073.wsdiscovery import wsdimpl
         from sdc11073.xml_types import wsd_types
-        from .wsdharness import RecordingNetworkingThread
         self.nsh = nsh
         self.wsd_types = wsd_types
-        self.wsd = wsdimpl.WSDiscovery('127.0.0.1', logger=_LOG)
-        self.rec = RecordingNetworkingThread()
-        self.wsd._networking_thread = self.rec
-        self.wsd._server_started = True
+        self.wsd, self.thread = mk_node(clock, rnd)
         self.dev = [nsh.DPWS.tag('Device')]
 
     def _take(self):
-        msgs = [m[0].serialize() for m in self.rec.out]
-        self.rec.out.clear()
-        return msgs
+        msgs, seen = [], set()
+        q = self.thread._send_queue
+        while not q.empty():
+            cm = q.get().msg.created_message
+            if id(cm) not in seen:
+                seen.add(id(cm))
+                msgs.append(cm)
+        return [cm.serialize() for cm in msgs]
 
     def scopes(self, j):
         return self.wsd_types.ScopesType(f'sdc.ctxt.loc:/sdc.ctxt.loc.detail/x?fac=p{j}')
@@ -306,11 +313,14 @@ UNICAST_KINDS = ('probematch', 'probematch_bare', 'resolvematch')  # arrive on t
 class Sim:
     """one scripted run.  script: list of (offset_s, action tuple), see _do()."""
 
-    def __init__(self, rng, mode='rand', start=1_790_000_000.0, loop_delay=0.0, max_ticks=6000):
+    def __init__(self, rng, mode='rand', start=1_790_000_000.0, loop_delay=0.0, max_ticks=6000, phase='rand'):
         self.clock = SimClock(start, limit=max_ticks)
+        # the harness acts somewhere INSIDE every sleep of the send loop: at its begin (the loop has just fallen asleep), middle, end
+        prng = __import__('random').Random(rng.random())
+        self.clock.phase = (lambda: prng.choice((0.0, 0.0, 0.5, 1.0))) if phase == 'rand' else (lambda: phase)
         self.rnd = SimRandom(rng, mode)
         self.wsd, self.thread = mk_node(self.clock, self.rnd)
-        self.foreign = Foreign()
+        self.foreign = Foreign(self.clock, self.rnd)
         self.loop_delay = loop_delay
         self.script = []
         self.pending = []  # (deliver_at, sock name, data, src)
@@ -352,6 +362,8 @@ class Sim:
             return real_add(msg, addr, port, repeat_params)
 
         def put(item, *a, **k):
+            if thread._send_queue.full():
+                raise SimAbort  # would block for ever: nobody else takes entries out in a single-threaded run
             rec = self.own_by_obj.get(id(item.msg.created_message))
             if rec is not None:
                 if not rec['entries'] and not id_known(thread, rec['mid']):
